@@ -5,10 +5,12 @@ bufio and the look-ahead of `print` disappear.
 -/
 import VaxisModel.Lemmas.ParserTextU
 import VaxisModel.Lemmas.ParserOut
+import VaxisModel.Lemmas.ParserStepBasic
 
 namespace VaxisModel.Lemmas.ParserRead
 open VaxisModel.Model.ParserTable VaxisModel.Model.Parser VaxisModel.Model.ParserIO VaxisModel.Model.ParserUtf8
 open VaxisModel.Lemmas.Parser VaxisModel.Lemmas.ParserText VaxisModel.Lemmas.ParserUtf8 VaxisModel.Lemmas.ParserTextU
+open VaxisModel.Lemmas.ParserStepBasic
 
 def isPrint : Seq → Bool
   | .print _ => true
@@ -86,75 +88,10 @@ theorem runActs_noprint (acts : List Act) (hacts : Act.print ∉ acts) (i : Inp)
           · exact ho x hx
           · exact applyAct_noprint a ha 0 s x hx
 
-theorem applyAct_state (a : Act) (r : Nat) (s : PState) : (applyAct a r s).1.state = s.state := by
-  cases a
-  case hook =>
-    simp only [applyAct]
-    split
-    · rfl
-    · split <;> rfl
-  case runExit =>
-    simp only [applyAct]
-    cases h : s.exit with
-    | none => rfl
-    | some f => cases f <;> rfl
-  case runExitIfSet =>
-    simp only [applyAct]
-    cases h : s.exit with
-    | none => rfl
-    | some f => cases f <;> rfl
-  case runExitIfSetST =>
-    simp only [applyAct]
-    cases h : s.exit with
-    | none => rfl
-    | some f => cases f <;> rfl
-  all_goals rfl
-
-theorem runActs_state (acts : List Act) (i : Inp) (s : PState) (out : List Seq) (n : Next) :
-    (runActs acts i s out n).1.state = s.state := by
-  induction acts generalizing s out with
-  | nil => rfl
-  | cons a rest ih =>
-    by_cases hret : ∃ n', a = .retIfIgnoreST n'
-    · obtain ⟨n', rfl⟩ := hret
-      simp only [runActs]
-      split
-      · rfl
-      · exact ih s out
-    · have hr1 : runActs (a :: rest) i s out n =
-          (match i with
-           | .rune r => runActs rest i (applyAct a r s).1 (out ++ (applyAct a r s).2) n
-           | .eof => if usesRune a then (s, out ++ [.panic], .stop)
-                     else runActs rest i (applyAct a 0 s).1 (out ++ (applyAct a 0 s).2) n) := by
-        cases a <;> first | (exfalso; exact hret ⟨_, rfl⟩) | (cases i <;> simp [runActs])
-      rw [hr1]
-      cases i with
-      | rune r => simp only; rw [ih, applyAct_state]
-      | eof =>
-        simp only
-        split
-        · rfl
-        · rw [ih, applyAct_state]
-
-theorem runFn_state (f : StateFn) (i : Inp) (s : PState) : (runFn f i s).1.state = s.state := by
-  simp only [runFn]
-  split <;> simp [runActs_state]
-
 theorem runFn_noprint (f : StateFn) (i : Inp) (s : PState) (h : Act.print ∉ (f.row i).1) :
     ∀ x ∈ (runFn f i s).2.1, isPrint x = false := by
   simp only [runFn]
   exact runActs_noprint _ h i s [] _ (by simp)
-
-theorem runActs_next_rune (acts : List Act) (hno : ∀ a ∈ acts, ∀ n', a ≠ .retIfIgnoreST n') (r : Nat) (s : PState)
-    (out : List Seq) (n : Next) : (runActs acts (.rune r) s out n).2.2 = n := by
-  induction acts generalizing s out with
-  | nil => rfl
-  | cons a rest ih =>
-    have hr1 : runActs (a :: rest) (.rune r) s out n =
-        runActs rest (.rune r) (applyAct a r s).1 (out ++ (applyAct a r s).2) n := by
-      cases a <;> first | (exfalso; exact hno _ (List.mem_cons_self ..) _ rfl) | simp [runActs]
-    rw [hr1]
-    exact ih (fun a' ha' => hno a' (by simp [ha'])) _ _
 
 /-- A step on a rune whose `anywhere` row contains no `p.print(r)` and, when `anywhere` passes the
     rune on, whose state-function row contains none either, emits no Print. -/
